@@ -82,9 +82,38 @@ func fmtField(name string, f func() SX) SX {
 	return L(Sym(name), f())
 }
 
+func obsEngine(e error) SX {
+	if e == nil {
+		return L(Sym("res"), L(Sym("nil")))
+	}
+	out := []SX{Sym("res"),
+		L(Sym("fmt0"), optSX(func() SX { return fmtSX(e) })),
+		L(Sym("rep0"), optSX(func() SX { return reportSX(e) })),
+		L(Sym("verbs0"), optSX(func() SX { return verbsSX(e) })),
+	}
+	if hopStreams {
+		h1, ok1 := hopsReal(e, 1)
+		on := func(f func(error) SX) SX {
+			if !ok1 {
+				return L(Sym("panic"))
+			}
+			return optSX(func() SX { return f(h1) })
+		}
+		out = append(out, L(Sym("fmt1"), on(fmtSX)), L(Sym("rep1"), on(reportSX)), L(Sym("verbs1"), on(verbsSX)))
+	}
+	return L(out...)
+}
+
 // obsCase computes the real-code observations of a case, in the same shape as
 // ErrModel.obsCase.
+// engineStreams: emit the formatting / report streams only (the engine properties), with
+// the after-hop streams when hopStreams is set.
+var engineStreams, hopStreams bool
+
 func obsCase(e error, refs []error) SX {
+	if engineStreams {
+		return obsEngine(e)
+	}
 	if e == nil {
 		return L(Sym("res"), L(Sym("nil")), L(Sym("is"), isSX(nil, refs)))
 	}
